@@ -34,14 +34,14 @@ Proof. exact name_step. Qed.
 Print Assumptions packaged_argument_reaches_every_use.
 
 Theorem tuple_projection_eliminated : forall f st bd c v s es n c1 c2 x,
-  simp f st bd c v = Ok (Tuple es, c1) -> simp f st bd c1 s = Ok (Const (CInt n), c2) ->
+  simp f st bd c v = Ok (Tuple es, c1) -> simp f st bd c1 s = Ok (Const (CInt n), c2) -> existsb is_starred es = false ->
   py_index es n = Some x -> (- Z.of_nat (length es) <= n < Z.of_nat (length es))%Z ->
   simp (S f) st bd c (Subscript v s) = Ok (x, c2).
 Proof. exact project_tuple_step. Qed.
 Print Assumptions tuple_projection_eliminated.
 
 Theorem list_projection_eliminated : forall f st bd c v s es n c1 c2 x,
-  simp f st bd c v = Ok (List es, c1) -> simp f st bd c1 s = Ok (Const (CInt n), c2) ->
+  simp f st bd c v = Ok (List es, c1) -> simp f st bd c1 s = Ok (Const (CInt n), c2) -> existsb is_starred es = false ->
   py_index es n = Some x -> (- Z.of_nat (length es) <= n < Z.of_nat (length es))%Z ->
   simp (S f) st bd c (Subscript v s) = Ok (x, c2).
 Proof. exact project_list_step. Qed.
